@@ -101,6 +101,10 @@ impl Polytope {
     /// s.t. self.mat @ x <= self.bias
     #[cfg(feature = "minilp")]
     pub fn solve_linprog(&self, coeffs: Array1<f64>, _verbose: bool) -> PolytopeStatus {
+        #[cfg(affinitree_verif)]
+        if !super::verif_hook::lp_passthrough() {
+            return super::verif_hook::around_lp(self, &coeffs, |p, c| p.solve_linprog(c, false));
+        }
         let problem = self.as_linprog(coeffs);
         let pb = problem.solver;
         let vars = problem.vars;
